@@ -20,6 +20,19 @@ fn run_world(mut wd: World, rng: Option<Rng>, trace: Option<Vec<Action>>, seed: 
 	wd.out.seed = seed;
 	match trace {
 		Some(actions) => {
+			// (only for traces of complete runs: a run that stopped at a violation has no Finish and
+			// is replayed exactly as recorded)
+			if wd.cfg.mode == world::Mode::Order && actions.iter().any(|a| *a == Action::Finish) {
+				let mut per: [std::collections::BTreeSet<u64>; 2] = Default::default();
+				for a in actions.iter() {
+					if let Some((g, k)) = a.message_key() {
+						if g < 2 {
+							per[g].insert(k);
+						}
+					}
+				}
+				wd.order_allowed = Some(per[0].intersection(&per[1]).cloned().collect());
+			}
 			for a in actions.iter() {
 				if wd.dead {
 					break;
@@ -106,5 +119,32 @@ impl Sim for GossipSim {
 				"Logger (sink)".into(),
 			],
 		)
+	}
+}
+
+#[cfg(test)]
+mod tests {
+	use super::*;
+	use simcore::runner::run_isolated;
+
+	#[test]
+	fn seeds_are_clean_and_repeatable() {
+		for profile in PROFILES {
+			for seed in 0..40u64 {
+				let a = run_isolated(|| GossipSim.run(profile, simcore::mix(99, seed), Tier::Quick));
+				let b = run_isolated(|| GossipSim.run(profile, simcore::mix(99, seed), Tier::Quick));
+				assert!(a.violations.is_empty(), "{} {}: {:?}", profile, seed, a.violations);
+				assert!(a.harness_errors.is_empty(), "{} {}: {:?}", profile, seed, a.harness_errors);
+				assert_eq!(a.history_fp, b.history_fp);
+				assert_eq!(a.interleaving_fp, b.interleaving_fp);
+				assert!(a.steps > 0);
+			}
+		}
+	}
+
+	#[test]
+	fn unknown_profile_is_a_harness_error() {
+		let o = GossipSim.run("nope", 1, Tier::Quick);
+		assert!(!o.harness_errors.is_empty());
 	}
 }
